@@ -23,7 +23,7 @@ CFG = {
     "trusted_base": TB_COMMON + [
         "axioms: none (every C13 theorem is 'Closed under the global context')",
         "modelled, not verified: i128::checked_add/sub/mul/neg/pow, div_euclid/rem_euclid, wrapping_rem_euclid (modelled on Z with explicit range tests, "
-        "div/rem_euclid from their std source text over truncating Z.quot/Z.rem, checked_pow by its contract `exact power iff representable`); IEEE-754 binary64 "
+        "div/rem_euclid from their std source text over truncating Z.quot/Z.rem, checked_pow from its std source text (square-and-multiply over checked_mul, 32 units of fuel, proved equal to `exact power iff representable`)); IEEE-754 binary64 "
         "+ - * / and comparisons as Coq.Floats.SpecFloat (prec 53, emax 1024), `as f64` as SpecFloat.binary_normalize (round to nearest even), f64::floor, f64::trunc, `%` on f64 (exact fmod), f64::rem_euclid, f64::div_euclid and the "
         "saturating `as i128`/`as u128` casts as hand-written functions on spec_float — all cross-checked against Rust's own results by the `prim` family; "
         "NaN payloads and the sign of NaN are not represented (spec_float has one NaN)",
